@@ -55,8 +55,14 @@ EXPECT_PROBES = ["has_cycle", "one_way_link", "parallel_links", "link_down",
                  "link_up", "control_reset", "silent_switch", "converged",
                  "flood_sim", "big_dpid", "big_port"]
 
-DPID_POOL = [1, 2, 3, 4, 5, 6, 7, 8, 9, 10, (1 << 48) + 3, (1 << 63) + 1,
-             0xabcdef0123, 0xffffffffffff]
+# dpids of every hex-digit length (the probe carries the dpid as hex text):
+# 16^k, 16^(k+1)-1 and a value in between, plus a few small ones
+DPID_POOL = sorted(set(
+    [1, 2, 3, 4, 5, 6, 7, 8, 9, 10, (1 << 48) + 3, (1 << 63) + 1,
+     0xabcdef0123, 0xffffffffffff, 0xffffffffffffffff]
+    + [16 ** k for k in range(1, 16)]
+    + [16 ** k - 1 for k in range(2, 16)]
+    + [(16 ** k) * 10 + 0xb * 16 ** (k - 1) + 7 for k in range(1, 15)]))
 
 
 def gen_plan(seed, tier):
